@@ -211,6 +211,7 @@ def check(case):
     flag = bool(opts.get("auto_abs"))
     performing = []  # steps at which the task is live WORKING and performed
     first_ready_step = None
+    pred_id = {i: t.ID for i, t in enumerate(hp.tasks)}  # (IDs survive the JSON route)
     for s, d in enumerate(sim["steps"]):
         upd, alloc = d.get("updated"), d.get("allocated")
         if alloc is None:
@@ -221,6 +222,15 @@ def check(case):
             res.fail("C20.has_workers", "sub-project task holds %s %s at step %d" % (list(tt[T_AW]), list(tt[T_AF]), s))
         if first_ready_step is None and can_perform and upd["tasks"][t_id][T_STATE] != S.NONE:
             first_ready_step = s
+        # "starting as soon as its dependencies allow", judged on the predecessors themselves: every FS predecessor
+        # FINISHED and every SS predecessor started (WORKING or FINISHED) after the update of this step
+        if upd["tasks"][t_id][T_STATE] == S.NONE and all(
+            (upd["tasks"][pred_id[a]][T_STATE] == S.FINISHED) if kind == S.FS else (upd["tasks"][pred_id[a]][T_STATE] in (S.WORKING, S.FINISHED))
+            for a, b, kind in parent["deps"]
+            if b == k
+        ):
+            res.fail("C20.start_not_allowed", "step %d: every predecessor of the sub-project task has finished (FS) / started (SS) but the task is still NONE" % s, sig="ss" if any(b == k and kind == S.SS for a, b, kind in parent["deps"]) else "fs")
+            break
         if tt[T_STATE] == S.WORKING and can_perform:
             performing.append(s)
     finished = int(task.state) == S.FINISHED
